@@ -43,7 +43,7 @@ import sys
 
 r2d = 180.0 / math.pi
 d2r = math.pi / 180.0
-DEFTOL = 1e-8
+DEFTOL = 1e-10
 
 # map the odd scamp naming scheme onto a matrix
 # I didn't figure out the formula
@@ -324,7 +324,7 @@ class WCS(object):
                 roots of the polynomial rather than using an inverse
                 polynomial.  This is more accurate but slower. Default True.
             xtol: tolerance to use when root finding with find=True Default is
-                1e-8.
+                1e-10.
         Outputs:
             x,y: x and y coords in the image.  Will have the same shape as
                 lon,lat
